@@ -66,10 +66,14 @@ def std_inquiry_format():
 def vpd_formats():
     I = lambda: dec("scsi_cdb_inquiry", "Inquiry", evpd=1)  # noqa: E731,E741
     out = []
-    s = st.fixed_dictionaries(dict(PQPDT, pages=st.lists(st.integers(0, 255), max_size=24)))
+    # page lists / serials / descriptor lists occasionally longer than 255 bytes (two-byte PAGE LENGTH)
+    s = st.fixed_dictionaries(dict(PQPDT, pages=st.one_of(st.lists(st.integers(0, 255), max_size=24),
+                                                          st.lists(st.integers(0, 255), max_size=24),
+                                                          st.lists(st.integers(0, 255), min_size=250, max_size=300))))
     out.append(Format("vpd_00", s, lambda v: R.vpd_supported(v["pages"], pq=v["pq"], pdt=v["pdt"]),
                       lambda v: vpd_expect(v, 0x00, {"vpd_pages": list(v["pages"])}), I(), lambda v: len(v["pages"])))
-    s = st.fixed_dictionaries(dict(PQPDT, serial=st.binary(max_size=40)))
+    s = st.fixed_dictionaries(dict(PQPDT, serial=st.one_of(st.binary(max_size=40), st.binary(max_size=40),
+                                                           st.binary(min_size=250, max_size=400))))
     out.append(Format("vpd_80", s, lambda v: R.vpd_serial(v["serial"], pq=v["pq"], pdt=v["pdt"]),
                       lambda v: vpd_expect(v, 0x80, {"unit_serial_number": v["serial"]}), I()))
     for name, page, table, build in (("vpd_86", 0x86, R.EXT_INQUIRY, R.vpd_extended),
@@ -95,7 +99,8 @@ def vpd_formats():
         name_string = st.tuples(st.just(8), st.just(3), st.fixed_dictionaries({"scsi_name_string": iscsi_name(40).map(
             lambda s_: (lambda raw: raw + bytes(-len(raw) % 4))(s_.encode() + b"\0"))}))
         return st.tuples(st.one_of(designator(60), name_string), st.integers(0, 1), st.integers(0, 2), fv(4)).map(mk)
-    s = st.fixed_dictionaries(dict(PQPDT, descs=st.lists(desc(), max_size=8)))
+    s = st.fixed_dictionaries(dict(PQPDT, descs=st.one_of(st.lists(desc(), max_size=8), st.lists(desc(), max_size=8),
+                                                          st.lists(desc(), min_size=20, max_size=28))))
 
     def exp83(v):
         ds = []
